@@ -46,7 +46,7 @@ func init() {
 		Rule: "seeded random operation sequences (Write/Read/Delete/ExpireAll/DeleteAll/Len/Walk/Load/Store with ctx options none,+1h,-1s,-2h,ttl0,SkipRead) over a hostile key alphabet " +
 			"on ShardedMap, SyncMap, ShardedMapOf[string] x TimeToLive{default,1h,Unlimited} x jitter{default,-1,1.0}; every result is compared with a reference map-with-expiry; " +
 			"a case is one sequence; distinct_nontrivial counts distinct (backend,config,op-kind/state-class trace hash) of sequences with >=5 ops that exercised at least one expired or deleted entry",
-		Required: []string{"op.Read", "op.Write", "op.Delete", "op.ExpireAll", "op.DeleteAll", "op.Walk", "op.Len", "op.Load", "op.Store", "read.expired_with_value", "read.skipread", "write.noncomparable"},
+		Required: []string{"op.Read", "op.Write", "op.Delete", "op.ExpireAll", "op.DeleteAll", "op.Walk", "op.Len", "op.Load", "op.Store", "read.expired_with_value", "read.skipread", "write.noncomparable", "write.shared_ctx", "write.skipread_ctx", "bulk.cases"},
 		Assumptions: []string{
 			"wall clock is not stepped during a run; entry states use TTL margins of >=1s so scheduling delays cannot flip fresh/expired",
 			"janitor does not fire (DeleteExpiredJobInterval left at 1h)",
@@ -78,6 +78,16 @@ func runC07(b *Batch) {
 		i := i
 		b.Guard(i, "C07", func() { c07Case(b, i) })
 		collectGarbage(i)
+	}
+	nb := b.Pick(16, 320) / b.NBatches
+	if nb == 0 {
+		nb = 1
+	}
+	for i := 0; i < nb; i++ {
+		if !b.Skip(nSeq + i) {
+			i := i
+			b.Guard(nSeq+i, "C07", func() { c07Bulk(b, nSeq+i) })
+		}
 	}
 }
 
@@ -125,7 +135,17 @@ func c07Case(b *Batch, idx int) {
 		return e.class
 	}
 	// ctx option for writes; returns ctx and resulting class
+	// one TTL-carrying context reused by many writes of the case: nothing may write into it
+	sharedTTL := []time.Duration{time.Hour, 90 * time.Minute, -time.Hour}[rng.Intn(3)]
+	sharedCtx := cache.WithTTL(bg, sharedTTL, false)
 	writeOpt := func() (context.Context, string, string) {
+		if rng.Intn(6) == 0 {
+			b.R.Count("write.shared_ctx", 1)
+			if sharedTTL < 0 {
+				return sharedCtx, "shared" + sharedTTL.String(), "expired"
+			}
+			return sharedCtx, "shared+" + sharedTTL.String(), "fresh"
+		}
 		switch rng.Intn(8) {
 		case 6:
 			return cache.WithTTL(bg, -48*time.Hour, false), "-48h", "expired" // longer than the default DeleteExpiredAfter
@@ -185,7 +205,16 @@ func c07Case(b *Batch, idx int) {
 					b.R.Count("write.noncomparable", 1)
 				}
 			}
+			if rng.Intn(5) == 0 {
+				ctx = cache.WithSkipRead(ctx) // SkipRead is a reader option: a write keeps its TTL option
+				optName += "+skipread"
+				b.R.Count("write.skipread_ctx", 1)
+			}
 			err := be.Write(ctx, buf, v)
+			if got := cache.TTL(sharedCtx); got != sharedTTL {
+				fail("Write", st, "ctx-ttl-altered", fmt.Sprintf("TTL carried by a caller's context changed from %v to %v during a write", sharedTTL, got))
+				sharedCtx = cache.WithTTL(bg, sharedTTL, false)
+			}
 			scramble()
 			steps = append(steps, seqStep{Op: "Write", Key: keyLabel(k), Val: fmt.Sprint(v), Opt: optName, Got: errClass(err)})
 			if err != nil {
